@@ -362,3 +362,32 @@ PROPS["C07"] = {
                   "the full matrix; an omitted comparison shows up as a disagreeing pair.",
     "level_note": "Depth <= 2 universe; deeper types only through the WIT-derived resource-wiring workload.",
 }
+
+PROPS["C08"] = {
+    "shards": 16,
+    "quick_budget_s": 60,
+    "thorough_budget_s": 900,
+    "floors": {"any": {"components": 400, "signatures-equal": 2000, "value-types-equal": 500, "resource-identities-checked": 100,
+                       "use-provenance-checked": 100, "mutual-subtype-checks": 400,
+                       "dep-type:actual-component-satisfies-written-type": 300}},
+    "rule": "Each case draws a WIT library (1-4 interfaces with records/variants/enums/flags/lists/options/results/tuples of depth "
+            "1-3, resources with constructors/methods/statics and own/borrow handles, chains of `use` with renames inside and "
+            "across packages, optional versions) and 1-3 worlds (interface imports/exports, plain functions, inline interfaces) "
+            "built into real components by wit-component. For every component: Package::from_bytes must succeed; the world's "
+            "import and export names, order and kinds must equal what the independent decoder reads from the binary; the instance "
+            "type must equal the exports; every function of every imported/exported interface must have the model's parameter "
+            "names, order, structural types (records/variants/... expanded, handles by original resource name), result and async "
+            "flag; surviving type exports must equal the model structurally; `self` of every method must borrow the resource it "
+            "belongs to; every surviving `use` must record the right source interface (up to the version wit-component merged it "
+            "to) and original name; two independent decodes must be mutual subtypes; and the component, instantiated alone with "
+            "imported dependencies, must satisfy (wasmparser subtype relation, both nested in one validator) the component type "
+            "wac wrote for its `unlocked-dep` import. Non-trivial: every generated component; distinct by world text with digits "
+            "removed.",
+    "assumptions": ["wit-component prunes unused types of imported interfaces and merges dependency imports across compatible versions; "
+                    "only items present in the binary are compared",
+                    "shaped WAT items (nested component/instance/module/value/type imports and exports) are covered by C07's universe, which is decoded by the same code path"],
+    "technique": "runtime monitor: generator-model oracle on the decoded types + reference-validator subtype oracle on the re-encoded dependency type",
+    "level_text": "The decoder's output is compared field by field with the model the component was generated from, and the type wac "
+                  "writes for an imported dependency is checked against the real component with the reference validator's own relation.",
+    "level_note": "Held on generated WIT shapes; the model compares structure after alias expansion, so alias bookkeeping itself is only checked through `use` provenance.",
+}
